@@ -13,11 +13,22 @@ def run_scenarios(seed, count, prof, hp, budget_s=None):
     """play `count` generated scenarios on the implementation; returns list of scenario dicts"""
     out = []
     t0 = time.time()
-    for i in range(count):
+    for i in range(count * 4):
         if budget_s is not None and time.time() - t0 > budget_s:
+            break
+        if len(out) >= count:
             break
         rng = random.Random("%s/%d" % (seed, i))
         defn, lang, inputs, feats = gen.gen_def(rng, prof)
+        # the properties quantify over definitions that inspection accepts structurally
+        try:
+            ins = core.inspect_def(defn, lang)
+        except Exception as e:
+            out.append({"idx": i, "def": defn, "lang": lang, "ops": [], "replies": [], "feats": sorted(feats),
+                        "harness_error": "inspect: %s: %s" % (type(e).__name__, e)})
+            continue
+        if "syntax" in ins or "semantics" in ins or ("expressions" in ins) or ("context" in ins and prof.p_badexpr == 0):
+            continue
         h = gen.History(rng, hp, core.Impl(), defn, lang, inputs)
         try:
             h.run()
